@@ -405,6 +405,7 @@ def _send_calls(repo, f):
 # ------------------------------------------------------------------------------- R2
 def r2(ctx):
     repo = ctx.repo
+    must_close_writers(ctx, "C02.R2")
     cls = repo.cls(RESP)
     writers = []
     for name, f in cls.methods.items():
@@ -454,11 +455,6 @@ def r2(ctx):
                         ctx.check("C02.R2", okk, key(f, "response_length-writer|" + norm(n)), site(f, n),
                                   "Response.response_length is changed in %s after the framing decision was taken: is_chunked() re-evaluated later (sendfile) disagrees with the "
                                   "`Transfer-Encoding: chunked` header already announced" % name, "response_length only set while headers are processed")
-                    if isinstance(t, ast.Attribute) and isinstance(t.value, ast.Name) and t.value.id == "self" and t.attr == "must_close":
-                        okk = (name == "__init__" and const(n.value, NO) is False) or (name == "force_close" and const(n.value, NO) is True)
-                        ctx.check("C02.R2", okk, key(f, "must_close-writer|" + norm(n)), site(f, n),
-                                  "Response.must_close is written in %s: a force_close() decision of the worker (max_requests, keep-alive queue full, shutting down) can be lost" % name,
-                                  "must_close only raised by force_close()")
     # consumers: util.write(.., chunked) argument and the terminator in close()
     f_w = repo.func(RESP + ".write")
     for c in calls_to(repo, f_w, [UTIL + ".write", UTIL + ".write_nonblock"]):
@@ -556,22 +552,51 @@ def r3(ctx):
 
 # ------------------------------------------------------------------------------- R4
 def must_close_writers(ctx, rid="C02.R2"):
-    """Response.must_close is lowered nowhere but in __init__ and raised nowhere but in force_close(): whatever the
-    application does between the worker's force_close() and the head (start_response restarts included) cannot undo it"""
+    """The worker's force_close() is final. Evaluated over the response's life -- __init__, force_close(), then one or two
+    start_response calls (the second with exc_info; header lists with and without `Connection: close`): must_close is still true
+    when the head is built, whatever else the class keeps about who asked for the close. (Before force_close() the flag is the
+    class's own business: an application may be allowed to ask for a close.)"""
     repo = ctx.repo
+    cls = repo.cls(RESP)
+    attrs = sorted(set("self." + t.attr for fm in cls.methods.values() for x in walk_own(fm.node) if isinstance(x, (ast.Assign, ast.AugAssign))
+                       for t in (x.targets if isinstance(x, ast.Assign) else [x.target]) if isinstance(t, ast.Attribute) and isinstance(t.value, ast.Name) and t.value.id == "self"))
+    f_init, f_fc, f_sr = repo.func(RESP + ".__init__"), ctx.fn(repo.func(RESP + ".force_close")), ctx.fn(repo.func(RESP + ".start_response"))
+    ST, HD, EXC = f_sr.params[1], f_sr.params[2], f_sr.params[3]
+
+    def carry(o):
+        return dict((k, v) for k, v in o.env.items() if k.startswith("self."))
+
+    def step(fn, envs, extra):
+        out = []
+        for e in envs:
+            e2 = dict(e)
+            e2.update(extra)
+            for o in Explorer(fn, tracked=attrs, inline_depth=3).run(fn.cfg.entry, e2):
+                if o.kind == "return":
+                    out.append(carry(o))
+        return out[:8]
+    p = f_init.params
+    base = step(f_init, [{}], {p[1]: UNKNOWN, p[2]: UNKNOWN, p[3]: UNKNOWN})
+    ctx.need(base, rid + ": Response.__init__ has no normal outcome")
+    req = {"self.req.version": (1, 1), "self.req.method": "GET"}
+    plain, closing = (("X-A", "b"),), (("Connection", "close"), ("X-A", "b"))
     n = 0
-    for f in repo.cls(RESP).methods.values():
-        for x in walk_own(f.node):
-            if isinstance(x, (ast.Assign, ast.AugAssign)):
-                for t in (x.targets if isinstance(x, ast.Assign) else [x.target]):
-                    if isinstance(t, ast.Attribute) and isinstance(t.value, ast.Name) and t.value.id == "self" and t.attr == "must_close":
-                        n += 1
-                        v = const(x.value, NO)
-                        okk = isinstance(x, ast.Assign) and ((f.name == "__init__" and v is False) or (f.name == "force_close" and v is True))
-                        ctx.check(rid, okk, key(f, "must_close-writer|" + norm(x)), site(f, x),
-                                  "Response.must_close is written in %s: a force_close() decision of the worker (max_requests reached, keep-alive queue full, shutting down) can be lost "
-                                  "and the response goes out as keep-alive" % f.name, "must_close only raised by force_close()")
-    ctx.floor(rid, "writers of Response.must_close", n, 2)
+    for label, calls in (("one start_response", [("200 OK", plain, None)]), ("start_response with `Connection: close`", [("200 OK", closing, None)]),
+                         ("restart with exc_info", [("200 OK", plain, None), ("500 Oops", plain, ("T", "V", "TB"))]),
+                         ("`Connection: close`, then a restart with exc_info that drops it", [("200 OK", closing, None), ("500 Oops", plain, ("T", "V", "TB"))])):
+        envs = step(f_fc, base, {})
+        ctx.need(envs and all(e.get("self.must_close") is True for e in envs), rid + ": force_close() does not set must_close")
+        for st, hd, exc in calls:
+            e_ = dict(req)
+            e_.update({ST: st, HD: hd, EXC: exc})
+            envs = step(f_sr, envs, e_)
+        ctx.need(envs, rid + ": start_response has no normal outcome after force_close() (%s)" % label)
+        n += 1
+        got = set(repr(e.get("self.must_close")) for e in envs)
+        ctx.check(rid, got == {"True"}, key(f_sr, "force_close-final|" + label), site(f_sr),
+                  "after the worker's force_close() (max_requests reached, keep-alive queue full, shutting down) and %s, must_close is %s: the response goes out as keep-alive and the "
+                  "connection outlives the worker's decision" % (label, sorted(got)), "must_close stays true")
+    ctx.floor(rid, "force_close life-cycle sequences", n, 4)
 
 
 def late_error(ctx, rid="C02.R4"):
@@ -609,7 +634,10 @@ def late_error(ctx, rid="C02.R4"):
             r = g.reachable([(t, "true")], follow_exc=True)
             leaves = g.exit not in r
             texts = " ".join(n.text for n in r)
-            ctx.check(rid, leaves and ".shutdown(" in texts and ".close()" in texts, key(f, "abort-after-headers"), site(f, t),
+            # (either the handler shuts the connection down itself, or it hands the original exception on unchanged -- handle()
+            # then closes the socket without writing anything)
+            passes_on = leaves and any(n.kind == "stmt" and ((isinstance(n.ast, ast.Raise) and n.ast.exc is None) or "util.reraise(" in n.text) for n in r) and ".write_error(" not in texts and ".handle_error(" not in texts
+            ctx.check(rid, leaves and ((".shutdown(" in texts and ".close()" in texts) or passes_on), key(f, "abort-after-headers"), site(f, t),
                       "after an application error with headers already sent the handler can return normally / does not shut the socket down: "
                       "the truncated response would be followed by another response on the same connection", "shutdown + close + StopIteration")
 
